@@ -14,13 +14,18 @@
 EXTENDS EpsSer, Json, IOUtils
 
 Rec == ndJsonDeserialize(IOEnv.TRACE)
-VARIABLE l, tcase, silentOk
-tvars == <<serVars, l, tcase, silentOk>>
+VARIABLE l, tcase, silentOk, woff, keep
+tvars == <<serVars, l, tcase, silentOk, woff, keep>>
 
+(* The trace of a run may be *filtered* (its `init` event lists the kinds of events that were kept):    *)
+(* the machine takes the steps whose events were filtered out silently.  Consecutive write_all calls    *)
+(* are merged by the recorder's post-processing into one `w` event, consumed piecewise by the machine's  *)
+(* raw / pad / block writes: the validation is about the bytes and the structure, not about how many     *)
+(* write_all calls carried them.                                                                          *)
 Ev == Rec[l]
-\* ops that make no call on the backend: taken silently
+Kept(kind) == kind \in keep
+\* ops that make no call on the backend: always silent
 Silent(o) == o.op \in {"zccheck", "fake", "forget", "itercheck"}
-\* the machine's program with the silent ops taken out (a failing check would surface as a `ret` event)
 Visible(p) == SelectSeq(p, LAMBDA o : ~Silent(o))
 WildEq(a, b) == Len(a) = Len(b) /\ \A i \in 1..Len(a) : a[i] > 255 \/ a[i] = b[i]
 
@@ -29,66 +34,90 @@ IdleSer ==
   /\ padleft = -1 /\ cur = <<>> /\ inwrite = FALSE /\ rows = <<>> /\ path = <<>> /\ starts = <<>>
   /\ fake = 0 /\ src = "intact" /\ faults = 0 /\ ncalls = 0 /\ fault = <<"none">>
 
-TInit == l = 1 /\ IdleSer /\ tcase = [t |-> UnitT, v |-> <<>>, nameLen |-> 0] /\ silentOk = TRUE
+TInit == /\ l = 1 /\ IdleSer /\ tcase = [t |-> UnitT, v |-> <<>>, nameLen |-> 0] /\ silentOk = TRUE
+         /\ woff = 0 /\ keep = {} /\ TLCSet(42, 1)
 
 \* a new recorded run: load the program of its (type, value)
 TStart ==
-  /\ l <= Len(Rec) /\ Ev.ev = "init"
+  /\ l <= Len(Rec) /\ Ev.ev = "init" /\ woff = 0
+  /\ (status \in {"idle", "ok"} \/ ~Kept("ret"))
   /\ tcase' = [t |-> Ev.t, v |-> Ev.v, nameLen |-> Ev.nameLen]
-  /\ prog' = Visible(SerProgram(Ev.t, Ev.v, Ev.nameLen, -1))
+  /\ keep' = {Ev.keep[i] : i \in 1..Len(Ev.keep)}
+  /\ LET kk == {Ev.keep[i] : i \in 1..Len(Ev.keep)}
+         \* the machine is needed only if some serializer event was kept
+         p == IF kk \cap {"enter", "exit", "align", "block", "w", "flush", "ret", "rows"} = {} THEN <<>>
+              ELSE SerProgram(Ev.t, Ev.v, Ev.nameLen, -1)
+     IN /\ prog' = Visible(p)
+        \* (one pass over p: TLC re-evaluates a LET definition at every reference inside a quantifier)
+        /\ silentOk' = (SelectSeq(p, LAMBDA o : (o.op = "zccheck" /\ o.a # 1) \/ (o.op = "itercheck" /\ o.a # o.b)) = <<>>)
   /\ pc' = 1 /\ pos' = 0 /\ pos0' = 0 /\ out' = <<>> /\ status' = "run" /\ detail' = <<>>
   /\ padleft' = -1 /\ cur' = <<>> /\ inwrite' = FALSE /\ rows' = <<>> /\ path' = <<>> /\ starts' = <<>>
   /\ fake' = 0 /\ src' = "intact" /\ faults' = 0 /\ ncalls' = 0 /\ fault' = <<"none">>
-  /\ silentOk' = \A i \in 1..Len(SerProgram(Ev.t, Ev.v, Ev.nameLen, -1)) :
-                    LET o == SerProgram(Ev.t, Ev.v, Ev.nameLen, -1)[i]
-                    IN (o.op = "zccheck" => o.a = 1) /\ (o.op = "itercheck" => o.a = o.b)
-  /\ l' = l + 1
+  /\ l' = l + 1 /\ woff' = 0
 
-Step(a) == a /\ l' = l + 1 /\ UNCHANGED <<tcase, silentOk>>
+Step(a) == a /\ l' = l + 1 /\ UNCHANGED <<tcase, silentOk, woff, keep>>
+Quiet(a) == a /\ UNCHANGED <<l, tcase, silentOk, woff, keep>>
+HasEv(kind) == l <= Len(Rec) /\ Ev.ev = kind
 
-TEnter == /\ l <= Len(Rec) /\ Ev.ev = "enter" /\ Running /\ CurOp.op = "enter"
-          /\ CurOp.name = Ev.name /\ Ev.pos = pos /\ Step(DoEnter)
-TExit ==  /\ l <= Len(Rec) /\ Ev.ev = "exit" /\ Running /\ CurOp.op = "exit" /\ Ev.pos = pos /\ Step(DoExit)
-TAlign == /\ l <= Len(Rec) /\ Ev.ev = "align" /\ Running /\ CurOp.op = "align" /\ padleft = -1
-          /\ CurOp.unit = Ev.unit /\ Ev.pos = pos /\ Step(DoAlignStart)
+TEnter == /\ Running /\ CurOp.op = "enter"
+          /\ IF Kept("enter") THEN woff = 0 /\ HasEv("enter") /\ CurOp.name = Ev.name /\ Ev.pos = pos /\ Step(DoEnter)
+             ELSE Quiet(DoEnter)
+TExit ==  /\ Running /\ CurOp.op = "exit"
+          /\ IF Kept("exit") THEN woff = 0 /\ HasEv("exit") /\ Ev.pos = pos /\ Step(DoExit) ELSE Quiet(DoExit)
+TAlign == /\ Running /\ CurOp.op = "align" /\ padleft = -1
+          /\ IF Kept("align") THEN woff = 0 /\ HasEv("align") /\ CurOp.unit = Ev.unit /\ Ev.pos = pos /\ Step(DoAlignStart)
+             ELSE Quiet(DoAlignStart)
 \* write_bytes announces the block (row pushed before the write): no machine step yet, the write follows
-TBlock == /\ l <= Len(Rec) /\ Ev.ev = "block" /\ Running /\ CurOp.op = "block"
+TBlock == /\ Kept("block") /\ HasEv("block") /\ Running /\ CurOp.op = "block" /\ woff = 0
           /\ CurOp.unit = Ev.unit /\ Ev.pos = pos /\ Ev.len = Len(CurOp.bytes)
-          /\ l' = l + 1 /\ UNCHANGED <<serVars, tcase, silentOk>>
+          /\ l' = l + 1 /\ UNCHANGED <<serVars, tcase, silentOk, woff, keep>>
+\* the bytes of the machine's next write are the next bytes of the (merged) w event
+Piece(bs) == woff + Len(bs) <= Len(Ev.bytes) /\ WildEq(bs, SubSeq(Ev.bytes, woff + 1, woff + Len(bs)))
+Consume(n, a) ==
+  /\ a
+  /\ IF woff + n = Len(Ev.bytes) THEN l' = l + 1 /\ woff' = 0 ELSE l' = l /\ woff' = woff + n
+  /\ UNCHANGED <<tcase, silentOk, keep>>
 TWrite ==
-  /\ l <= Len(Rec) /\ Ev.ev = "w" /\ Running /\ Ev.pos = pos
-  /\ \/ CurOp.op = "raw" /\ WildEq(CurOp.bytes, Ev.bytes) /\ Step(DoRaw)
-     \/ CurOp.op = "block" /\ WildEq(CurOp.bytes, Ev.bytes) /\ Step(DoBlock)
-     \/ CurOp.op = "align" /\ padleft > 0 /\ Ev.bytes = <<0>> /\ Step(DoPadByte)
-TFlush == /\ l <= Len(Rec) /\ Ev.ev = "flush" /\ Running /\ CurOp.op = "flush" /\ Step(DoFlush)
+  /\ Running /\ ~(CurOp.op = "block" /\ Kept("block") /\ HasEv("block"))
+  /\ \/ /\ CurOp.op \in {"raw", "block"} /\ CurOp.bytes = <<>>      \* an empty write carries no byte: silent
+        /\ Quiet(IF CurOp.op = "raw" THEN DoRaw ELSE DoBlock)
+     \/ /\ HasEv("w") /\ Ev.pos + woff = pos
+        /\ \/ CurOp.op = "raw" /\ CurOp.bytes # <<>> /\ Piece(CurOp.bytes) /\ Consume(Len(CurOp.bytes), DoRaw)
+           \/ CurOp.op = "block" /\ CurOp.bytes # <<>> /\ Piece(CurOp.bytes) /\ Consume(Len(CurOp.bytes), DoBlock)
+           \/ CurOp.op = "align" /\ padleft > 0 /\ Piece(<<0>>) /\ Consume(1, DoPadByte)
+TFlush == /\ Running /\ CurOp.op = "flush"
+          /\ IF Kept("flush") THEN woff = 0 /\ HasEv("flush") /\ Step(DoFlush) ELSE Quiet(DoFlush)
 \* the call returned: success, the count it reports is the machine's position, every silent check passed
 TRet ==
-  /\ l <= Len(Rec) /\ Ev.ev = "ret"
+  /\ HasEv("ret") /\ woff = 0
   /\ status = "ok" /\ Ev.st = "ok" /\ Ev.n = pos /\ silentOk
-  /\ l' = l + 1 /\ UNCHANGED <<serVars, tcase, silentOk>>
+  /\ l' = l + 1 /\ UNCHANGED <<serVars, tcase, silentOk, woff, keep>>
 \* the schema of the same value: same bytes as the plain run, rows = the machine's rows
 RowEq(r, m) == r.field = m.field /\ r.off = m.off /\ r.size = m.size /\ r.align = m.align
 TRows ==
-  /\ l <= Len(Rec) /\ Ev.ev = "rows" /\ status = "ok"
+  /\ HasEv("rows") /\ status = "ok" /\ woff = 0
   /\ Ev.same_bytes
   /\ Len(Ev.rows) = Len(rows) /\ \A i \in 1..Len(rows) : RowEq(Ev.rows[i], rows[i])
-  /\ l' = l + 1 /\ UNCHANGED <<serVars, tcase, silentOk>>
+  /\ l' = l + 1 /\ UNCHANGED <<serVars, tcase, silentOk, woff, keep>>
 \* both deserializers return the value that was serialized (C01 / C02 on the recorded run)
 TFull ==
-  /\ l <= Len(Rec) /\ Ev.ev = "full" /\ Ev.st = "ok" /\ Ev.val = <<tcase.v>>
+  /\ HasEv("full") /\ woff = 0 /\ Ev.st = "ok" /\ Ev.val = <<tcase.v>>
   /\ (status = "ok" => Ev.rpos = Len(out))      \* (the machine has run only if the serializer events are in the trace)
-  /\ l' = l + 1 /\ UNCHANGED <<serVars, tcase, silentOk>>
+  /\ l' = l + 1 /\ UNCHANGED <<serVars, tcase, silentOk, woff, keep>>
 TEps ==
-  /\ l <= Len(Rec) /\ Ev.ev = "eps" /\ Ev.st = "ok" /\ Ev.val = <<tcase.v>>
+  /\ HasEv("eps") /\ woff = 0 /\ Ev.st = "ok" /\ Ev.val = <<tcase.v>>
   \* every borrowed part is a block the machine wrote: same offset and length, inside the stream
   /\ \A i \in 1..Len(Ev.borrows) :
         LET b == Ev.borrows[i]
         IN (status = "ok" /\ (b.len > 0 \/ b.esz > 0)) =>
              /\ b.inb /\ b.mis = 0
              /\ \E j \in 1..Len(rows) : rows[j].field[Len(rows[j].field)] = "zero" /\ rows[j].off = b.off /\ rows[j].size = b.len
-  /\ l' = l + 1 /\ UNCHANGED <<serVars, tcase, silentOk>>
+  /\ l' = l + 1 /\ UNCHANGED <<serVars, tcase, silentOk, woff, keep>>
 
 TNext == TStart \/ TEnter \/ TExit \/ TAlign \/ TBlock \/ TWrite \/ TFlush \/ TRet \/ TRows \/ TFull \/ TEps
+
+\* remember the furthest line reached (silent steps make the diameter useless for acceptance)
+Furthest == TLCSet(42, IF l > TLCGet(42) THEN l ELSE TLCGet(42))
 
 \* invariants evaluated in every state of every recorded execution
 TPosCounts == (status \in {"run", "ok"}) => pos = Len(out)
@@ -97,7 +126,7 @@ TOutPrefix == status \in {"run", "ok"} =>
    LET e == Stream(Norm(tcase.t), tcase.v, tcase.nameLen) IN Len(out) <= Len(e)
 
 Accepted ==
-  LET d == TLCGet("stats").diameter
-  IN IF d - 1 = Len(Rec) THEN TRUE
+  LET d == TLCGet(42)
+  IN IF d = Len(Rec) + 1 THEN TRUE
      ELSE Print(<<"TRACE-REJECTED at line", d, IF d <= Len(Rec) THEN Rec[d] ELSE "eof">>, FALSE)
 ====
